@@ -20,7 +20,7 @@ from ..prov import FuncFacts
 from ..resolve import Ctx, calls_in
 from . import c15
 from .c01 import _Relabel
-from .common import inline_locals
+from .common import inline_locals, class_closure
 
 
 def _raises_under(fn: FuncInfo, pred) -> list[ast.Raise]:
@@ -115,6 +115,8 @@ def _type_guards(chk):
                 # structure-only helpers do not touch the data
                 HARMLESS = {"len", "enumerate", "zip", "isinstance", "convert_to_list", "list", "tuple"}
                 real = [u for u in real if not (isinstance(par.get(id(u)), ast.Call) and (dotted(par[id(u)].func) or "").split(".")[-1] in HARMLESS)]
+                # plain aliasing (v = X) does not touch the data either; the alias is followed when it is validated
+                real = [u for u in real if not (isinstance(par.get(id(u)), ast.Assign) and par[id(u)].value is u)]
                 # pure delegation to the same entry point of another class in the MRO (checked there)
                 deleg = [u for u in real if isinstance(par.get(id(u)), ast.Call) and isinstance(par[id(u)].func, ast.Attribute) and par[id(u)].func.attr == ename
                          and not is_self_attr(par[id(u)].func.value)]
@@ -126,6 +128,10 @@ def _type_guards(chk):
                 loop_of = {}
                 for c in calls_in(entry):
                     hit = bool(c.args) and isinstance(c.args[0], ast.Name) and c.args[0].id == p
+                    if not hit and c.args and isinstance(c.args[0], ast.Name):
+                        # a local alias of the parameter (v = X; validate(v))
+                        aps = ff.paths(c.args[0], spine_only=True)
+                        hit = bool(aps) and all(q.atom.kind == "param" and q.atom.name == p and not q.ops for q in aps)
                     if not hit and c.args and isinstance(c.args[0], ast.Name):
                         # `for v in (X, Y): validate(v)` - the loop variable ranges over a display containing the parameter
                         cur = par.get(id(c))
@@ -208,6 +214,35 @@ def _dims_guard(chk):
                       why="user data is combined with the fitted mean/std/weights before any dimension check: data lacking a dimension is "
                           "broadcast against the fitted arrays and transform answers with numbers that were never in the input")
         return
+    # coverage: every fitted array that transform combines with the data is one whose dimensions the validator compares
+    # (or the validator compares against the fitted feature dimensions, which contain them all)
+    used: dict[str, ast.AST] = {}
+    for b in [x for x in walk_no_nested(tr.node) if isinstance(x, (ast.BinOp, ast.AugAssign))]:
+        l, r = (b.left, b.right) if isinstance(b, ast.BinOp) else (b.target, b.value)
+        for a, o in ((l, r), (r, l)):
+            if any(p.atom.kind == "param" and p.atom.name == data for p in ff.paths(a, spine_only=True)):
+                for p in ff.paths(o, spine_only=True):
+                    if p.atom.kind == "selfattr" and not p.has_op("subscript"):
+                        used.setdefault(p.atom.name, b)
+    covered: set[str] = set()
+    for t in ctx.resolve_call(good):
+        if t.fn is None:
+            continue
+        for g in class_closure(pm, sc, t.fn):
+            gf = FuncFacts.of(g)
+            for r in [x for x in walk_no_nested(g.node) if isinstance(x, ast.Raise)]:
+                for gd in gf.guards(r):
+                    for p in gf.paths(gd.test, spine_only=False, follow=True):
+                        if p.atom.kind == "selfattr":
+                            covered.add(p.atom.name)
+    whole = {"self.feature_dims", "self.dims"} & covered
+    miss = sorted(a for a in used if a not in covered) if not whole else []
+    chk.check(not miss, "GUARD.dims.cover", tr, used[miss[0]] if miss else good,
+              construct="Scaler.transform: every fitted array combined with the data is covered by the dimension check",
+              why=f"transform combines the data with {miss} but the dimension check does not look at {'them' if len(miss) > 1 else 'it'}: data lacking one of "
+                  f"{'their' if len(miss) > 1 else 'its'} dimensions is broadcast and answered with numbers when no other fitted array carries that dimension",
+              facts={"combined_with_data": sorted(used), "covered_by_check": sorted(covered)})
+    chk.require(len(used) >= 3, "Scaler.transform: arithmetic with fitted arrays vanished")
     gn = ff.cfg.node_for(good)
     ops = [b for b in walk_no_nested(tr.node) if isinstance(b, ast.BinOp) and any(is_self_attr(x) for x in (b.left, b.right))]
     chk.check(bool(ops) and all(ff.cfg.dominates(gn, ff.cfg.node_for(b)) for b in ops), "GUARD.dims", tr, good,
